@@ -589,8 +589,17 @@ def c19(run, vc):
             return run.finish()
         s = vc.replay(r["vectors"], "c19_" + cfg.replace(".cfg", ""), tables, profiles="5", feature="rust")
         run.add_replay(s, cfg + " replayed on the pure-Rust backend", r["vectors"], lambda v: True)
+    # decoding is deterministic too: every decoder outcome of the Codec model (canonical and non-canonical inputs)
+    # on both builds against the same prediction, so a backend-specific divergence shows on one of them
+    r, bad = _tlc_stage(run, vc, "MC_Codec", "MC_Codec_%s.cfg" % tier, [("Codec", "Ok"), ("Codec", "Err")], timeout=7200)
+    if bad:
+        return run.finish()
+    cv = [v for v in r["vectors"] if v["act"] == "Codec"]
+    for feat in ("blst", "rust"):
+        s = vc.replay(cv, "c19_codec_" + feat, tables, profiles="5", feature=feat)
+        run.add_replay(s, "every decoder outcome of the Codec model on the %s build" % feat, cv, lambda v: v["mut"]["kind"] != "none")
     run.samples.append({"det_events": events[1:4]})
-    return run.finish(rule="both feature configurations are built from the current tree; every deterministic output (all encodings of every type x variant x value class, keys from seeds of 6 lengths, seeded random keys / challenges incl. the facade, signatures, PoPs, aggregates of 2..17 signers with verdicts, recombination of a fixed share set, challenges, generators, hash-to-curve / hash-to-scalar outputs incl. a 70 KB message, pairing result bytes, wide scalar reduction) is logged with its hash on both nodes and TLC validates equal-call => equal-output; the randomized artefacts of each build (ciphertexts, proofs, share sets) are consumed by the other build with the recorded result; model vectors replayed on the pure-Rust build",
+    return run.finish(rule="both feature configurations are built from the current tree; every deterministic output (all encodings of every type x variant x value class, keys from seeds of 6 lengths, seeded random keys / challenges incl. the facade, signatures, PoPs, aggregates of 2..17 signers with verdicts, recombination of a fixed share set, challenges, generators, hash-to-curve / hash-to-scalar outputs incl. a 70 KB message, pairing result bytes, wide scalar reduction) is logged with its hash on both nodes and TLC validates equal-call => equal-output; the randomized artefacts of each build (ciphertexts, proofs, share sets) are consumed by the other build with the recorded result; model vectors replayed on the pure-Rust build; every decoder outcome of the Codec model (canonical and non-canonical encodings) replayed on both builds against one prediction",
                       assumptions=["both builds run on this machine; the blst build uses the assembly backend available here"])
 
 
@@ -669,7 +678,7 @@ def c05(run, vc):
     ok = _multi_stage(run, vc, tables, [
         ("MC_SigNet", "MC_SigNet_single_%s.cfg" % tier, cross_sig, "a signature made under one scheme presented under another (all ordered pairs), incl. sums with signatures of other schemes"),
         ("MC_SigNet", "MC_SigNet_pop_%s.cfg" % tier, lambda v: (v["act"] == "Verify") or (v["act"] == "PopVerify" and any(o["op"] == "AsPop" for o in v["proof"]["ops"])), "a signature over the public-key bytes presented as a proof of possession and a proof of possession presented as a signature, every scheme"),
-        ("MC_Pok", "MC_Pok_%s.cfg" % tier, lambda v: v["pert"] == "label", "a proof of knowledge relabelled to another scheme"),
+        ("MC_Pok", "MC_Pok_%s.cfg" % tier, lambda v: v["pert"] in ("label", "pop_as_sig") or (v["pert"] == "none" and v["act"] == "Pok"), "a proof of knowledge relabelled to another scheme; a proof of possession presented as a signature inside a proof of knowledge; honest proofs of every scheme (the tag the prover and the verifier use is the scheme's)"),
         ("MC_SignCrypt", "MC_SignCrypt_%s.cfg" % tier, lambda v: v["act"] in ("IsValid", "Decrypt") and any(o["op"] == "Relabel" for o in v["ct"]["ops"]), "a signcryption ciphertext relabelled to each other scheme"),
         ("MC_TimeLock", "MC_TimeLock_%s.cfg" % tier, lambda v: v["act"] == "TLDecrypt" and (v["relabelled"] or v["sig"]["scheme"] != v["ct"]["scheme0"] or v["sig"]["label"] != v["sig"]["scheme"]) and v["sig"]["label"] == v["sig"]["scheme"], "a time-lock ciphertext opened with a genuine signature of another scheme, and a relabelled ciphertext"),
     ])
